@@ -74,15 +74,20 @@ ALL_OPS = onestep.PRIMS + onestep.OBSERVERS + onestep.COMPOSITES
 
 @prop('C01')
 def c01(tier, seed):
+    from . import overlay
+    plan = [('UO3', 2, dict(ncfg=40 if tier == 'quick' else None, k1_ops=overlay.HIST_OPS + overlay.OBS_OPS, k2=6 if tier == 'quick' else 40, recreate=1, tag='C01'))]
+    if tier != 'quick':
+        plan.append(('UO3', 3, dict(ncfg=200, k1_ops=overlay.HIST_OPS, k2=6, tag='C01')))
     return run_onestep('C01', tier, seed, ['mem', 'alt:/a'], ['mem', 'alt:/a', 'alt:/a/b', 'alt:', 'altalt'],
-                       onestep.PRIMS + onestep.OBSERVERS + onestep.COMPOSITES)
+                       onestep.PRIMS + onestep.OBSERVERS + onestep.COMPOSITES, overlay_plan=plan)
 
 
 @prop('C03')
 def c03(tier, seed):
     from . import overlay
     plan = [('UO3', 2, dict(ncfg=60 if tier == 'quick' else None, k1_ops=overlay.HIST_OPS, k2=6 if tier == 'quick' else 60, k3=2 if tier == 'quick' else 20, removal_first=True)),
-            ('UOW', 2, dict(ncfg=60 if tier == 'quick' else 400, k1_ops=['remove_file', 'remove_dir', 'remove_dir_all'], k2=4 if tier == 'quick' else 20, removal_first=True, then_parent=True))]
+            ('UOW', 2, dict(ncfg=60 if tier == 'quick' else 400, k1_ops=['remove_file', 'remove_dir', 'remove_dir_all'], k2=4 if tier == 'quick' else 20, removal_first=True, then_parent=True)),
+            ('UOD', 2, dict(ncfg=50 if tier == 'quick' else None, k1_ops=['remove_dir', 'remove_dir_all', 'remove_file'], k2=2 if tier == 'quick' else 20, removal_first=True))]
     if tier != 'quick':
         plan += [('UO3', 3, dict(ncfg=300, k1_ops=overlay.HIST_OPS, k2=10, removal_first=True)), ('UO4', 2, dict(ncfg=300, k1_ops=overlay.HIST_OPS, k2=10, removal_first=True))]
     return run_onestep('C03', tier, seed, ['mem', 'alt:/a'], ['mem', 'alt:/a', 'alt:/a/b', 'altalt'], ALL_OPS, overlay_plan=plan)
